@@ -30,6 +30,14 @@ for p in selftest/benign/*.diff; do [ -f "$p" ] || continue
   git -C /repo checkout -- .
   if [ $rc -eq 0 ]; then echo "ok   $name passes"; else echo "FALSE-ALARM $name (exit $rc)"; echo "$out" | grep -v "^KNOWN" | tail -3; FAIL=1; fi
 done
+echo "== refactorings beyond what the anchoring follows (must answer UNDECIDED: exit 2, no VIOLATION line)"
+for p in selftest/undecided/*.diff; do [ -f "$p" ] || continue
+  name=$(basename $p .diff); id=${name%%-*}; [ -n "$only" ] && [ "$only" != "$id" ] && continue
+  git -C /repo apply /verif/$p 2>/dev/null || { echo "PATCH-DOES-NOT-APPLY $name"; FAIL=1; continue; }
+  out=$(bin/check $id 2>&1); rc=$?
+  git -C /repo checkout -- .
+  if [ $rc -eq 2 ] && ! echo "$out" | grep -q "^VIOLATION"; then echo "ok   $name undecided: $(echo "$out" | grep ^UNDECIDED | head -1 | cut -c1-110)"; else echo "WRONG-ANSWER $name (exit $rc)"; echo "$out" | grep -v "^KNOWN" | tail -3; FAIL=1; fi
+done
 
 tools/refresh_evidence.sh > /dev/null
 exit $FAIL
